@@ -168,7 +168,7 @@ func explore(c *core.Ctx, b *Built, p *plan) ([]VsResult, []string, error) {
 		wg.Add(1)
 		go func(i int) {
 			defer wg.Done()
-			job := VsJob{Mode: "dfs", Cfgs: parts[i], POR: true, MaxSteps: 3000, LogRuns: p.logRuns, LogLines: p.logLines, Tag: fmt.Sprintf("d%d.", i)}
+			job := VsJob{Mode: "dfs", Cfgs: parts[i], POR: true, MaxSteps: 600, LogRuns: p.logRuns, LogLines: p.logLines, Tag: fmt.Sprintf("d%d.", i)}
 			outs[i].o, outs[i].err = RunVs(c, b, job, fmt.Sprintf("dfs%d", i), 40*time.Minute)
 		}(i)
 	}
